@@ -588,10 +588,6 @@ func popQosShape(fd *ast.FuncDecl) loopShape {
 		sh.why = "charge is Inc(" + sh.incArgs + "), expected Inc(1, uint32(message.BodySize))"
 		return sh
 	}
-	if !sh.skipsInactive {
-		sh.why = "inactive windows are not skipped"
-		return sh
-	}
 	sh.ok = true
 	return sh
 }
@@ -691,11 +687,13 @@ func genQos(c *trlib.Ctx) error {
 	if !sh.ok {
 		problems = append(problems, "PopQos: "+sh.why)
 		sb.WriteString("(* loop shape NOT RECOGNISED (" + strings.ReplaceAll(sh.why, "*)", "* )") + "); fallback = the repaired behaviour *)\n")
-		sb.WriteString("Definition popqos_rolls_back : bool := true.\n")
+		sb.WriteString("Definition popqos_rolls_back : bool := true.\nDefinition popqos_skips_inactive : bool := false.\n")
 	} else {
-		sb.WriteString("(* inactive windows skipped; charge Inc(" + sh.incArgs + "); refusal branch: allowed = false; " +
+		sb.WriteString("(* " + map[bool]string{true: "windows without limits skipped (if !q.IsActive() { continue })", false: "every window charged"}[sh.skipsInactive] +
+			"; charge Inc(" + sh.incArgs + "); refusal branch: allowed = false; " +
 			map[bool]string{true: "Dec(" + sh.decArgs + ") on the windows already charged; ", false: ""}[sh.rollsBack] + "break *)\n")
 		sb.WriteString("Definition popqos_rolls_back : bool := " + trlib.CoqBool(sh.rollsBack) + ".\n")
+		sb.WriteString("Definition popqos_skips_inactive : bool := " + trlib.CoqBool(sh.skipsInactive) + ".\n")
 	}
 	if len(problems) > 0 {
 		c.Unrec(rel, strings.Join(problems, "; "))
